@@ -1411,7 +1411,8 @@ def body(res, obs, model, work, proved):
                 which = [["outcome", "object", "interface", "heap", "received"][i] for i in range(5) if gm[i] != m[i]]
                 corr.append({"stage": "convert/" + c["kind"], "differs_in": which, "script": e[2], "model_case": e[1][:1500],
                              "go_case": e[0][:1500], "impl": gm, "model": m, "impl_raw": g.get("raw", "")})
-        if len(samples) < 10 and len(keep) and (len(samples) * len(keep) // 10) <= keep.index((c, e)) if False else len(samples) < 10 and hash(e[1]) % 97 == 0:
+        n_seen = stats["kinds"].get(c["kind"], 0)
+        if len(samples) < 10 and n_seen % 211 == 5:
             samples.append({"kind": c["kind"], "script": e[2], "impl": gm, "model": m})
     for t, g in zip(UNSUPPORTED, uns):
         if g["outcome"] in ("panic", "escaped"):
